@@ -6,30 +6,33 @@ import unit as U
 import finders
 
 
-def canary_variant(b, scratch):
-    """every extracted function with an `ensures` gets `false` as an additional postcondition; each must FAIL"""
-    lines = list(b.lines)
-    targets = []
+def canary_variants(b, scratch):
+    """one variant per extracted function with an `ensures`: `false` becomes an additional postcondition of that
+    function ONLY (callers of a canaried function would otherwise verify vacuously); each variant must FAIL"""
+    outs = []
     for (label, a, z, props, exact) in b.regions:
         info = [f for f in b.functions if f["item"] == label][0]
         if info["kind"] != "fn":
             continue
+        lines = list(b.lines)
+        hit = False
         for i in range(a - 1, z):
             ln = lines[i]
             if ln.lstrip().startswith(splice_tag()) and re.search(r"\bensures\b", ln.split("//")[0]):
                 lines[i] = re.sub(r"\bensures\b", "ensures false,", ln, count=1)
-                targets.append(label)
+                hit = True
                 break
-            if ln.lstrip().startswith("{") and not ln.lstrip().startswith(splice_tag()):
-                break
-    c = U.Built()
-    c.__dict__.update(b.__dict__)
-    c.lines = lines
-    c.text = "\n".join(lines) + "\n"
-    c.path = os.path.join(scratch, b.unit.replace("-", "_") + "_canary.rs")
-    with open(c.path, "w", encoding="utf-8") as fh:
-        fh.write(c.text)
-    return c, targets
+        if not hit:
+            continue
+        c = U.Built()
+        c.__dict__.update(b.__dict__)
+        c.lines = lines
+        c.text = "\n".join(lines) + "\n"
+        c.path = os.path.join(scratch, "%s_canary_%d.rs" % (b.unit.replace("-", "_"), len(outs)))
+        with open(c.path, "w", encoding="utf-8") as fh:
+            fh.write(c.text)
+        outs.append((label, c))
+    return outs
 
 
 def splice_tag():
@@ -39,17 +42,23 @@ def splice_tag():
 
 def run(b, scratch, pid, seed, failures):
     out = {"undecided": [], "violations": []}
-    # 1. vacuity canaries
-    c, targets = canary_variant(b, scratch)
-    res = U.run_verus(c)
-    fb = U.function_breakdown(res, c)
-    failed_fns = set(x["function"].split("::")[-1] for x in fb if x["success"] is False)
+    # 1. vacuity canaries (one Verus run per function, in parallel)
+    from concurrent.futures import ThreadPoolExecutor
+    variants = canary_variants(b, scratch)
+
+    def one(lc):
+        label, c = lc
+        r = U.run_verus(c, extra=["--verify-root", "--verify-function", "*" + label.split("::")[-1]])
+        vr = (r["json"] or {}).get("verification-results") or {}
+        return label, vr.get("errors", 0) > 0, vr
+
     vacuous = []
-    for label in targets:
-        nm = label.split("::")[-1]
-        if nm not in failed_fns:
-            vacuous.append(label)
-    out["canaries"] = {"functions": len(targets), "refuted_as_expected": len(targets) - len(vacuous), "vacuous": vacuous}
+    with ThreadPoolExecutor(max_workers=8) as ex:
+        for label, failed, vr in ex.map(one, variants):
+            if not failed:
+                vacuous.append(label)
+    out["canaries"] = {"functions": len(variants), "refuted_as_expected": len(variants) - len(vacuous), "vacuous": vacuous,
+                       "meaning": "`ensures false` added to one function at a time must be refuted; a pass would mean contradictory preconditions/invariants or an unreachable exit"}
     if vacuous and not failures:
         out["undecided"].append("vacuous contract (ensures false verifies) for: %s" % ", ".join(vacuous))
     # 2. stability under two further solver seeds
